@@ -131,8 +131,13 @@ TAccess ==
                       /\ o.ringlens = [i \in 1..np |-> Len(s.parts[i])]
                       /\ o.empties = [i \in 1..np |-> s.parts[i] = << >>]
 
+\* beyond the listed properties: multipoint! / polyline! build what the constructors build
+TMacro ==
+    /\ Ev("macro") /\ UNCHANGED cur
+    /\ Rec[l].tuple = Rec[l].built /\ Rec[l].struct = Rec[l].built
+
 Init == l = 2 /\ cur = [t |-> 0, shapes |-> << >>]
-Next == TCase \/ TWritten \/ TSizes \/ TReadback \/ TBigSize \/ THeader \/ TAccess
+Next == TCase \/ TWritten \/ TSizes \/ TReadback \/ TBigSize \/ THeader \/ TAccess \/ TMacro
 Spec == Init /\ [][Next]_vars
 
 \* acceptance: every line was consumed (line 1 is the meta line)
